@@ -32,7 +32,7 @@ func main() {
 	run := flag.String("run", ".*", "regexp of harness function names (Verif_...)")
 	out := flag.String("out", "", "output JSON file (default stdout)")
 	timeout := flag.Int("solver-timeout", 20000, "per-query solver timeout ms")
-	solvers := flag.String("solvers", "z3,cvc5,z3-new", "solver portfolio order")
+	solvers := flag.String("solvers", "z3-new,cvc5,z3r", "solver portfolio order (z3-new / z3 = incremental push/pop instances with a quarter of the time limit; cvc5; z3r / z3-newr = one-shot after reset)")
 	unwind := flag.Int("unwind", 64, "default unwind bound")
 	maxSteps := flag.Int("max-steps", 20000000, "per-path step limit")
 	maxPaths := flag.Int("max-paths", 200000, "path limit per harness")
